@@ -91,8 +91,6 @@ def run(chk):
     chk.rule("R14.1", "encode/decode sequences of the hand-written codecs agree (shared with C14)")
     chk.rule("R14.2", "automaton serialize <-> deserialize_unchecked (shared with C14)")
     chk.floor("R14.1", "hand-written codec pairs", c14.pairs(chk, w), 7, other=5)
-    from . import c06 as _c06
-    _c06.r068(chk, w)
     inv = {}
     raw = []
     for bd in w.all_bodies():
@@ -127,9 +125,21 @@ def run(chk):
     # shared obligations
     c06.r063(chk, w)
     c15.wsconst(chk, w)
-    c11.quantisation(chk, w)
-    c05_total.run(chk, w)
-    c03.run(chk)
+    # to_int_unchecked: the value must be finite (non-zero divisor); the 16-bit range itself (R11.6) is not a precondition
+    with chk.only(rules={"R11.3"}):
+        c11.quantisation(chk, w)
+    # get_unchecked(0) on the first character: sentences are never empty; panics of error constructors are not UB
+    with chk.only(rules={"R05.4"}, keys=lambda k: "error-ctor" not in k):
+        c05_total.run(chk, w)
+    # the as_mut_vec region of the tokenized writer keeps the String valid UTF-8 (the format rules of C03 are not needed here)
+    with chk.only(rules={"R03.2"}):
+        c03.run(chk)
+    # state that unchecked reads depend on must not survive an update (the tag slots are sliced with checked indexing)
+    from . import c05 as _c05k
+    chk.rule("R05.1", "sentence fields that unchecked reads depend on are reset by every update (shared with C05)")
+    with chk.only(rules={"R05.1"}):
+        _c05k.kill_rules(chk, w, only_fields=("text", "char_types", "boundaries", "str_to_char_pos", "char_to_str_pos", "char_pma_states", "type_pma_states",
+                                              "boundary_scores", "score_padding", "predictor"))
     chk.assumptions.append("ACCUM sites (line-break / grapheme filters): offsets are sums of len_utf8() resp. grapheme lengths of the same text; not decided statically")
 
 
